@@ -3,6 +3,7 @@ package main
 import (
 	"fmt"
 	"path/filepath"
+	"sort"
 	"strings"
 
 	"github.com/whoisnian/glb/util/fsutil"
@@ -78,6 +79,8 @@ func runC17(e *hk.Env) error {
 		}
 	}
 	gen(nil, maxLen)
+	// shortest first, so that the first reported failing input is a small one
+	sort.SliceStable(paths, func(i, j int) bool { return len(paths[i]) < len(paths[j]) })
 	for _, p := range paths {
 		hasDots := false
 		hasDotDot := false
